@@ -16,6 +16,7 @@
                     add_full_reduction             -> `addFullReduction`
                     map_func_over_tuple_of_tuples  -> `mapTupleOfTuples`
     util.py         is_nested, shape_to_size       -> `STree.isNested`, `shapeToSize`
+    _blockarray.py  __getitem__ (slice)            -> `sliceBounds`, `sliceLen`, `sliceIdx`, `getSlice`
     _blockarray.py  __setitem__                    -> `pyIndex`, `setItem` (before d088c11: `setItemOld`)
     scico/random.py _add_seed.fun_alt              -> `keyOf`, `seedOf`, `addSeedCore`, `addSeed`
                     _wrap                          -> `randomWrapped` (+ `bindArgs`: signature binding)
@@ -370,6 +371,40 @@ def setItemOld (self : List α) (k : Int) (v : α) : Res (List α) :=
   match pyIndex self.length k with
   | none => .error .index
   | some j => .ok (self.set j v)
+
+/-! ### `__getitem__` with a slice -/
+
+/-- `slice(start, stop, step).indices(n)` (CPython `PySlice_AdjustIndices`): the clipped start and stop
+    and the step; `none` for `step == 0` (ValueError).  `none` components = omitted. -/
+def sliceBounds (n : Nat) (start stop step : Option Int) : Option (Int × Int × Int) :=
+  let st := step.getD 1
+  if st = 0 then none
+  else
+    let len : Int := n
+    let clip := fun (v : Int) =>
+      if v < 0 then (if v + len < 0 then (if st < 0 then -1 else 0) else v + len)
+      else if len ≤ v then (if st < 0 then len - 1 else len) else v
+    let a := match start with
+      | some v => clip v
+      | none => if st < 0 then len - 1 else 0
+    let b := match stop with
+      | some v => clip v
+      | none => if st < 0 then -1 else len
+    some (a, b, st)
+
+/-- number of indices of `range(a, b, st)` -/
+def sliceLen (a b st : Int) : Nat :=
+  if st < 0 then (if b < a then ((a - b - 1) / (-st) + 1).toNat else 0)
+  else (if a < b then ((b - a - 1) / st + 1).toNat else 0)
+
+/-- `range(a, b, st)` -/
+def sliceIdx (a b st : Int) : List Int := (List.range (sliceLen a b st)).map (fun (i : Nat) => a + (i : Int) * st)
+
+/-- `x[start:stop:step]`: `result = self.arrays[key]` is a list, hence `BlockArray(result)` -/
+def getSlice [DecidableEq δ] (E : Env α δ) (self : List α) (start stop step : Option Int) : Res (List α) :=
+  match sliceBounds self.length start stop step with
+  | none => .error .value
+  | some (a, b, st) => mkBlock E ((sliceIdx a b st).filterMap (fun j => self[j.toNat]?))
 
 end more
 
